@@ -21,7 +21,7 @@ pub enum Sub {
     /// real threads, Buffered
     RealBuffered { buffer: usize, k: usize, upstream: usize },
     /// child process: worker function panics at item j
-    Panic { t: usize, n: usize, j: usize },
+    Panic { t: usize, n: usize, j: usize, #[serde(default)] delay_ms: u64 },
 }
 
 #[derive(Debug, Clone, Serialize, Deserialize)]
@@ -240,8 +240,13 @@ pub fn child_panic_pipe(args: &[String]) -> i32 {
     let t: usize = args.first().and_then(|s| s.parse().ok()).unwrap_or(1);
     let n: usize = args.get(1).and_then(|s| s.parse().ok()).unwrap_or(4);
     let j: usize = args.get(2).and_then(|s| s.parse().ok()).unwrap_or(0);
+    let delay: u64 = args.get(3).and_then(|s| s.parse().ok()).unwrap_or(0);
     let f: text_utils::data::Pipeline<usize, usize> = Arc::new(move |x| {
         if x == j {
+            // the failing item may be slow: the other workers run ahead in the meantime
+            if delay > 0 {
+                std::thread::sleep(Duration::from_millis(delay));
+            }
             panic!("injected failure at item {x}");
         }
         x
@@ -256,11 +261,11 @@ pub fn child_panic_pipe(args: &[String]) -> i32 {
     0
 }
 
-fn panic_child(t: usize, n: usize, j: usize) -> Result<(), String> {
+fn panic_child(t: usize, n: usize, j: usize, delay_ms: u64) -> Result<(), String> {
     let exe = std::env::current_exe().map_err(|e| e.to_string())?;
     for attempt in 0..2 {
         let mut child = Command::new(&exe)
-            .args(["child", "panic-pipe", &t.to_string(), &n.to_string(), &j.to_string()])
+            .args(["child", "panic-pipe", &t.to_string(), &n.to_string(), &j.to_string(), &delay_ms.to_string()])
             .stdin(Stdio::null())
             .stdout(Stdio::null())
             .stderr(Stdio::null())
@@ -268,7 +273,7 @@ fn panic_child(t: usize, n: usize, j: usize) -> Result<(), String> {
             .map_err(|e| e.to_string())?;
         let t0 = Instant::now();
         let mut status = None;
-        while t0.elapsed() < Duration::from_secs(30) {
+        while t0.elapsed() < Duration::from_secs(15) {
             beat();
             if let Ok(Some(s)) = child.try_wait() {
                 status = Some(s);
@@ -277,12 +282,15 @@ fn panic_child(t: usize, n: usize, j: usize) -> Result<(), String> {
             std::thread::sleep(Duration::from_millis(2));
         }
         match status {
+            Some(st) if st.success() => {
+                return Err(format!("worker function panicked at item {j} (T={t}, n={n}, {delay_ms} ms into the item) but the process completed normally with exit status 0: the failure was swallowed and the consumer saw a truncated stream"));
+            }
             Some(_) => return Ok(()),
             None => {
                 let _ = child.kill();
                 let _ = child.wait();
                 if attempt == 1 {
-                    return Err(format!("worker function panicked at item {j} (T={t}, n={n}) but the process was still alive after 30 s (twice): the consumer is blocked forever"));
+                    return Err(format!("worker function panicked at item {j} (T={t}, n={n}) but the process was still alive after 15 s (twice): the consumer is blocked forever"));
                 }
             }
         }
@@ -296,7 +304,7 @@ impl Prop for C09 {
     const RULE: &'static str = "(a) controlled schedules (C05 controller): T in 1..=4, consumer takes k in 0..=20 items of an upstream of k, k+1, 50 or 10^6 items, then only workers are scheduled until none can move (lookahead = pulled - consumed <= 4T+4), then the pipe is dropped and the workers are run to quiescence (all reach their exit point, still <= 4T+4 pulled); (b) the same with real threads for Pipe (T in 0..=4, chaos controller) and Buffered (buffer 0..=4, bound 2*buffer+4) with an upstream iterator that polices pulled - asked and pulls after the drop itself and whose Drop signals thread exit; (c) child processes in which the worker function panics at item j: the child must terminate. Non-trivial (a): at the drop >= 1 item is in the channel and >= 1 worker is between ticket and send. Distinct = distinct serialised case.";
     const CLAIMS_TERMINATION: bool = true;
     const HANG_SECS: u64 = 45;
-    const ESSENTIAL: &'static [&'static str] = &["controlled", "real_pipe", "real_buffered", "panic_child", "unbounded_upstream", "drop_at_0", "drop_with_full_channel"];
+    const ESSENTIAL: &'static [&'static str] = &["controlled", "real_pipe", "real_buffered", "panic_child", "panic_slow_near_end", "unbounded_upstream", "drop_at_0", "drop_with_full_channel"];
 
     fn budget(tier: Tier) -> Budget {
         match tier {
@@ -311,8 +319,8 @@ impl Prop for C09 {
             .prop_flat_map(move |(t, k, choices)| up(k).prop_map(move |upstream| Sub::Controlled { t, k, upstream, choices: choices.clone() }));
         let real_pipe = (0usize..=4, 0usize..=20, any::<u64>()).prop_flat_map(move |(t, k, chaos)| up(k).prop_map(move |upstream| Sub::RealPipe { t, k, upstream, chaos }));
         let real_buf = (0usize..=4, 0usize..=20).prop_flat_map(move |(buffer, k)| up(k).prop_map(move |upstream| Sub::RealBuffered { buffer, k, upstream }));
-        let panic = (1usize..=4, 1usize..=12).prop_flat_map(|(t, n)| (0..n).prop_map(move |j| Sub::Panic { t, n, j }));
-        prop_oneof![20 => controlled, 5 => real_pipe, 5 => real_buf, 1 => panic]
+        let panic = (1usize..=4, 1usize..=12, prop_oneof![Just(0u64), Just(5u64), Just(40u64)]).prop_flat_map(|(t, n, delay_ms)| (0..n).prop_map(move |j| Sub::Panic { t, n, j, delay_ms }));
+        prop_oneof![20 => controlled, 5 => real_pipe, 5 => real_buf, 2 => panic]
             .prop_map(|sub| Case { sub })
             .boxed()
     }
@@ -321,7 +329,7 @@ impl Prop for C09 {
         vec![
             "the bounds 4T+4 (Pipe) and 2*buffer+4 (Buffered) are deliberately looser than the tight values of the current code (2T, buffer+2): the property asks for a constant independent of the input length".into(),
             "real-thread runs have no timing verdicts: the upstream iterator records a violation itself when a bound is exceeded; waiting for thread exit relies on the watchdog (the statement says the threads exit)".into(),
-            "panic => exit: a child that is still alive after 30 s, twice, counts as blocked forever".into(),
+            "panic => exit: a child that is still alive after 15 s, twice, counts as blocked forever; a child that completes with exit status 0 although an item panicked counts as a swallowed failure".into(),
         ]
     }
 
@@ -370,10 +378,11 @@ impl Prop for C09 {
                     Err(e) => out.fail(format!("Buffered({buffer}), drop after {k} of {upstream}: {e}")),
                 }
             }
-            Sub::Panic { t, n, j } => {
+            Sub::Panic { t, n, j, delay_ms } => {
                 out.label("panic_child");
                 out.nontrivial = *t >= 2 && *j + 1 < *n;
-                if let Err(e) = panic_child(*t, *n, *j) {
+                out.label_if(*delay_ms > 0 && *j + *t > *n, "panic_slow_near_end");
+                if let Err(e) = panic_child(*t, *n, *j, *delay_ms) {
                     out.fail(e);
                 }
             }
